@@ -109,6 +109,9 @@ def _data_column(cls: str, n: int, c: int, dtag: str):
         return [None if r % 2 else r * 1000 + c for r in range(n)]
     if cls == "nf":  # float column with nulls
         return [r + c / 8 + 0.0625 if r % 3 else None for r in range(n)]
+    if cls == "sb":  # tagged strings with blanks on a diagonal: cell (r, c) is null (even r) or "" (odd r) when (r + c) % 3 == 0,
+        # so with 3 such columns every row has exactly one blank cell and two tagged ones (C09: formatting of empty cells)
+        return [(None if r % 2 == 0 else "") if (r + c) % 3 == 0 else f"{dtag}{r}.{c}" for r in range(n)]
     if cls == "z":
         return [None] * n
     if cls == "m":
@@ -116,7 +119,7 @@ def _data_column(cls: str, n: int, c: int, dtag: str):
     raise ValueError(cls)
 
 
-_POLARS_DT = {"s": "Utf8", "p": "Utf8", "x": "Utf8", "ni": "Int64", "nf": "Float64", "u": "Utf8", "b": "Boolean", "fe": "Float64", "i": "Int64", "f": "Float64", "z": "Utf8", "m": "Utf8"}
+_POLARS_DT = {"sb": "Utf8", "s": "Utf8", "p": "Utf8", "x": "Utf8", "ni": "Int64", "nf": "Float64", "u": "Utf8", "b": "Boolean", "fe": "Float64", "i": "Int64", "f": "Float64", "z": "Utf8", "m": "Utf8"}
 
 
 def table_frame(spec: dict, dtag: str = "D"):
@@ -128,6 +131,10 @@ def table_frame(spec: dict, dtag: str = "D"):
     data = {}
     schema = {}
     for lvl, keys in enumerate(spec.get("page_by") or []):
+        if spec.get("page_by_numeric"):  # integer group values (0 is a legitimate, falsy, value)
+            data[f"g{lvl}"] = [None if k is None else int(k) for k in keys]
+            schema[f"g{lvl}"] = pl.Int64
+            continue
         data[f"g{lvl}"] = ["-----" if k == -1 else (None if k is None else f"G{lvl}v{k}") for k in keys]
         schema[f"g{lvl}"] = pl.Utf8
     for lvl, keys in enumerate(spec.get("subline_by") or []):
@@ -167,7 +174,9 @@ def expected_widths(rel, total):
     return [total * w / s for w in rel]
 
 
-def _text_component(cls, tag, nlines, attrs):
+def _text_component(cls, tag, nlines, attrs, text=None):
+    if text is not None:   # verbatim text without a sentinel tag (spec keys footnote_text / source_text), e.g. a blank spacer " "
+        return cls(text=text, **(attrs or {}))
     text = [f"{tag}{i}" for i in range(nlines)]
     return cls(text=text if nlines > 1 else text[0], **(attrs or {}))
 
@@ -191,12 +200,14 @@ def build(spec: dict) -> Built:
     if fn:
         n_lines = 2 if fn.endswith("2") else 1
         kw["rtf_footnote"] = _text_component(rtf.RTFFootnote, "F", n_lines,
-                                             {"as_table": fn.startswith("table"), **(spec.get("footnote_attrs") or {})})
+                                             {"as_table": fn.startswith("table"), **(spec.get("footnote_attrs") or {})},
+                                             text=spec.get("footnote_text"))
     src = spec.get("source")
     if src:
         n_lines = 2 if src.endswith("2") else 1
         kw["rtf_source"] = _text_component(rtf.RTFSource, "Z", n_lines,
-                                           {"as_table": src.startswith("table"), **(spec.get("source_attrs") or {})})
+                                           {"as_table": src.startswith("table"), **(spec.get("source_attrs") or {})},
+                                           text=spec.get("source_text"))
     ph = spec.get("page_header")
     if ph == "default":
         kw["rtf_page_header"] = rtf.RTFPageHeader(**(spec.get("page_header_attrs") or {}))
@@ -274,6 +285,8 @@ def _build_section(spec, page, dtag="D", htag="H") -> Built:
         rel_shown = list(rel)
     widths_in = expected_widths(rel_shown, col_width) if shown else []
     _apply_heights(spec, data, shown, widths_in)
+    for dst, src_col in (spec.get("dup_cols") or {}).items():
+        data[dst] = list(data[src_col])
     df = pl.DataFrame({c: data[c] for c in order}, schema={c: schema[c] for c in order})
 
     bkw = dict(spec.get("body") or {})
@@ -317,6 +330,9 @@ def _build_section(spec, page, dtag="D", htag="H") -> Built:
             rtf.RTFColumnHeader(text=[f"{htag}1.{j}" for j in range(k)],
                                 **({"col_rel_width": rel_shown} if spec.get("two_widths", True) else {}), **hattrs),
         ]
+    elif hm == "rows":  # several full-width header rows, each with its OWN attributes (spec["header_rows_attrs"] = [attrs per row])
+        hdrs = [rtf.RTFColumnHeader(text=[f"{htag}{r}.{j}" for j in range(len(shown))], **{**hattrs, **(ra or {})})
+                for r, ra in enumerate(spec.get("header_rows_attrs") or [{}, {}])]
     elif hm == "none":
         hdrs = []
     else:
